@@ -127,6 +127,8 @@ def replay_in_zone(case):
         identity = dict(({'givenName': 'GivenName', 'sn': 'SN', 'mail': 'MAIL'}.get(k, k), v) for k, v in identity.items())
     now = spc.now()
     subject = 'subject-' + ('%06d' % rng.randint(0, 999999))
+    subject = {'ascii': subject, 'astral': u'\U00020000\U0001F600-' + subject, 'padded': u' \t' + subject + u' \u00a0\u3000 ',
+               'markup': '<' + subject + '>&"\''}[scn.get('subjClass', 'ascii')]
     sign_alg, digest_alg = ALG[scn['alg']]
     kw = {}
     if scn['sessionExpiry']:
@@ -184,7 +186,7 @@ def main():
         seen, keep = set(), []
         for c in cases:
             s = c['scn']
-            k = (s['vclass'], s['binding'], s['enc'], s['signResp'], s['skew'], s['authnCtx'], s['idpPolicy'], s['unknownAttr'], s['sessionExpiry'], s['tz'], s['keyStyle'])
+            k = (s['vclass'], s['binding'], s['enc'], s['signResp'], s['skew'], s['authnCtx'], s['idpPolicy'], s['unknownAttr'], s['sessionExpiry'], s['tz'], s['keyStyle'], s['subjClass'])
             if k not in seen:
                 seen.add(k)
                 keep.append(c)
